@@ -80,7 +80,10 @@ class Mod:
         if self.identity:
             o.append("  identity idb_%s;" % self.name)
         if self.idbase:
-            o.append("  identity idd_%s { base %s:idb_%s; }" % (self.name, self.idbase, self.idbase))
+            # several identities derived from ONE foreign base: unlinking them from the base's `derived` array (revert of a
+            # failed load) then removes links that are not the last one
+            for x in ("idd", "ide", "idf"):
+                o.append("  identity %s_%s { base %s:idb_%s; }" % (x, self.name, self.idbase, self.idbase))
         if self.typedef:
             o.append("  typedef td { type int8 { range 1..10; } }")
         if self.grouping:
